@@ -118,8 +118,12 @@ def check_sync(case):
     if b.ctx.suspensions or b.ctx.foreign:
         raise Violation(f"C17/{tool}/suspended-with-only-synchronous-arguments",
                         f"suspensions={b.ctx.suspensions} foreign={[repr(x)[:60] for x in b.ctx.foreign[:2]]}")
-    if outcome[0] == "raise" and not isinstance(outcome[1], (TypeError, ValueError, GrumpyError)):
-        expect_return(outcome, f"C17/{tool}")
+    if outcome[0] == "raise":
+        ref = consumer_view(run_sync(dict(case, plan=case.get("plan") or [])).ctx.log)
+        ref_exc = ref[-1][2] if ref and ref[-1][0] == "raise" else None
+        if type(outcome[1]).__name__ != ref_exc:
+            raise Violation(f"C17/{tool}/operation-failed-though-no-double-failed",
+                            f"{outcome!r} stdlib={ref_exc}")
 
 
 @st.composite
